@@ -31,7 +31,7 @@ def c14(ctx: Ctx):
         log("[gen] %d behaviours" % n)
     ctx.build_driver()
     logp = os.path.join(ctx.scratch, "log.ndjson")
-    ctx.drive(cases, logp)
+    ctx.drive(cases, logp, shards=8)
     cs = read_ndjson(cases)
     ctx.evaluations = len(cs)
     for c in cs:
